@@ -1,5 +1,6 @@
 import TypstyleModel.Props.C07
 import TypstyleModel.Proofs.Tokens
+import TypstyleModel.Proofs.EndToEnd
 /-! C10 — literal content is preserved exactly (printer side; F4 — the post-pass strips blanks
 before a line feed inside a multi-line literal — is a genuine counterexample to the end-to-end
 statement and is a known finding). -/
@@ -71,5 +72,11 @@ theorem C10_strip_only_removes_line_end_blanks (l : List Char) :
   unfold trimEndL
   have := (List.dropWhile_sublist isWs (l := l.reverse)).length_le
   simpa using this
+
+/-- T10.5 (on the rendered text): a literal atom — a string with its blanks and line breaks, a raw text line, a number with its unit — occurs character for character in the text the renderer produces at any width (the post-pass then touches blanks at line ends only: F4). -/
+theorem C10_literal_text_occurs_in_rendered_output (w : Nat) (d : Doc) (s : String) (t : Tag)
+    (h : Atom.txt s t ∈ best w 0 [⟨0, .brk, d⟩]) :
+    s.toList <:+: (pretty w d).toList :=
+  render_infix _ _ h
 
 end Typstyle
